@@ -30,11 +30,12 @@ PROBE_FLOORS = {"history_replay_with_latency": 100, "latent_last_before_first_st
                 "reset_after_abandonment": 100, "later_fold_with_latency": 50, "markov_reset": 100, "warmup_horizon": 100,
                 "single_event_day": 20, "empty_timestep_skipped": 19, "episode_after_observer_crash": 60,
                 "custom_events_loaded_from_table": 200, "episode_on_a_second_environment_of_the_transmitter": 100,
-                "events_added_before_second_environment": 50, "second_environment_with_another_latency": 35}
+                "events_added_before_second_environment": 50, "second_environment_with_another_latency": 35, "quotes_loaded_with_add_prices": 300,
+                "price_table_with_repeated_timestamps": 60, "environment_construction_refused": 50}
 
 PROFILE = {
     "n_min": 2, "n_max": 10, "n_long": 30, "p_long": 0.08, "c_min": 1, "c_max": 3, "p_bar": 0.8, "extras_max": 12,
-    "p_sparse_grid": 0.2, "p_folds": 0.5, "p_markov": 0.25, "p_warmup": 0.35, "delays": [0, 0, 1], "p_custom_frame": 0.2,
+    "p_sparse_grid": 0.2, "p_folds": 0.5, "p_markov": 0.25, "p_warmup": 0.35, "delays": [0, 0, 1], "p_custom_frame": 0.2, "p_prices_table": 0.2,
     "contract_kinds": ["ETF", "ETF", "spot", "margined"],
 }
 
@@ -319,6 +320,11 @@ def check_episode(env_spec, d, ep, sim, violate, probe):
     # probes
     if any(es.get("via_frame") for es in env_spec["events"]):
         probe("custom_events_loaded_from_table")
+    if any(es.get("via_prices") for es in env_spec["events"]):
+        probe("quotes_loaded_with_add_prices")
+        pv = [(es["c"], es["t"]) for es in env_spec["events"] if es.get("via_prices")]
+        if len(pv) != len(set(pv)):
+            probe("price_table_with_repeated_timestamps")
     if lat_us > 0 and len(hist) > len(d.bucket[steps[0]]):
         probe("history_replay_with_latency")
     if lat_us > 0 and fold is not None and steps[0] != d.timesteps_with_events[0]:
@@ -430,6 +436,8 @@ def execute(scenario):
                 probe("reset_after_abandonment")
         if violations:
             break
+    if sim.faults.get("environment_construction_refused"):
+        probe("environment_construction_refused")
     if len(env_spec.get("grid_input", [])) > len(env_spec["grid"]):
         probe("duplicate_timesteps")
     if len(d.timesteps_with_events) < len(d.G):
